@@ -283,6 +283,13 @@ func (e *Engine) BatchCheck(ctx context.Context,
 		i := i
 		tuple := tuple
 		eg.Go(func() error {
+			if tuple == nil {
+				results[i] = checkgroup.Result{
+					Membership: checkgroup.MembershipUnknown,
+					Err:        errors.WithStack(herodot.ErrBadRequest.WithError("relation tuple is null")),
+				}
+				return nil
+			}
 			internalTuple, err := mapper.FromTuple(ctx, tuple)
 			if err != nil {
 				results[i] = checkgroup.Result{
